@@ -257,7 +257,7 @@ var outGen = rapid.Custom(func(t *rapid.T) Out {
 	o := Out{Kind: rapid.SampledFrom([]string{"allow", "allow", "deny", "denycode", "denycode", "defer", "nil", "noreturn", "number", "string", "table", "boolean", "wrongud", "error", "rterror"}).Draw(t, "kind")}
 	if o.Kind == "denycode" {
 		o.Code = rapid.SampledFrom([]int{450, 451, 452, 550, 552, 553, 554, 421}).Draw(t, "code")
-		o.Msg = rapid.SampledFrom([]string{"go away", "Try again later", "5.7.1 no", "x"}).Draw(t, "msg")
+		o.Msg = rapid.SampledFrom([]string{"go away", "Try again later", "5.7.1 no", "x", "5.7.1 rejected: 100% spam score", "%s %d %v %!", "50%% off"}).Draw(t, "msg")
 	}
 	return o
 })
